@@ -945,7 +945,8 @@ class Vector():
 		result_values = tuple(None if x is None else op_func(x) for x in self)
 		return Vector(
 			result_values,
-			dtype=self._dtype,
+			# -True is an int: type the result by its values (an empty result keeps the dtype)
+			dtype=infer_dtype(result_values) if result_values else self._dtype,
 			name=self._name,
 			as_row=self._display_as_row
 		)
